@@ -20,7 +20,7 @@ from . import c14 as K14
 T0 = datetime(2021, 1, 1, tzinfo=timezone.utc)
 
 PINS = {
-    'PGPKey.add_uid': '4b9172b325eca43b', 'PGPKey.del_uid': 'ef782ed32572b539', 'PGPKey.add_subkey': 'ba2057f1997077f8', 'PGPKey.bind': 'a596300c4f9a6c24',
+    'PGPKey.add_uid': '4b9172b325eca43b', 'PGPKey.del_uid': 'ef782ed32572b539', 'PGPKey.add_subkey': '85b34b9f5c87e725', 'PGPKey.bind': 'a596300c4f9a6c24',
     'PGPKey.certify': 'fa3a26a4d6fbacd9', 'PGPKey.revoke': '0a06ad2822a8071a', 'PGPKey.revoker': 'dda913b648d20985', 'PGPKey.get_uid': '02f8faf42768e92d',
     'PGPKey.expires_at': 'd58d9d409e12c3bf', 'PGPKey.revocation_signatures': '386c01b9fb6862f3', 'PGPKey._get_key_flags': 'dc9a988c0f8dba20',
     'PGPKey.protect': '9e6d18e357fc4384', 'PGPKey.unlock': 'a08e792702a5ffe3', 'KeyAction.__call__': '4c949a55df3a3092', 'KeyAction.usage': '16a7e9cd1f721410',
